@@ -1,5 +1,9 @@
 import Driver.Loop
 import DastardV.Model.C12
+import DastardV.Model.C12Roach
 open DastardV
 
-def main : IO Unit := driverMain C12.runLine
+def main : IO Unit := driverMain fun ts =>
+  match ts.head? with
+  | some "rdev" => Roach.runLine ts
+  | _ => C12.runLine ts
